@@ -7,6 +7,12 @@ Theorems: coq/Props/Properties_C10.v.  Tie (Coq-Interval goals at exact dyadic i
   O  outputs of generate_momentum / generate / generate_phsp / gen_mc / generate_phsp_p:
      on shell, sum = (M,0,0,0), ladder masses, weight <= 1 (statements about the implementation's values)
   C  counts: generate(N) returns exactly N; length = model generate_out on the recorded accepted batches
+  K  cal_max_weight (hunt round): the stored bound after the call = model cal_max_new of the recorded scan weights and
+     the optimiser's recorded result (scipy = oracle); afterwards weights of fresh proposals in [0,1], finite bound
+  R  re-configured generators: every second generator scenario is built as PhaseSpaceGenerator(other).set_decay(m0, mi)
+     and must be indistinguishable from a fresh one (all layers above tie it to the model of the fresh generator)
+  N  ConfigLoader.generate_phsp_p / build_phsp_chain: which common node is generated at a fixed mass (model nest_node),
+     fixed-mass nodes exact, all other configurations LIPS-flat in m^2(node) (chi^2 against PhaseSpaceGenerator)
 """
 import math
 import random
@@ -20,7 +26,7 @@ from fractions import Fraction
 TECHNIQUE = ("Coq proof (field/nra, induction over the mass ladder) + Coq-Interval certified correspondence of weights, mass "
              "ladder, two-body steps with the code; on-shell / momentum-sum / count statements certified on every sampled output")
 
-HEADER = ("From Coq Require Import Reals List.\nFrom Interval Require Import Tactic.\n"
+HEADER = ("From Coq Require Import Reals List Lra.\nFrom Interval Require Import Tactic.\n"
           "From TFV Require Import Base.RBase Base.Tie Kin.Boost Kin.Boost_proofs Samp.PhaseSpace.\nImport ListNotations.\nOpen Scope R_scope.\n")
 UNF = ("vx vy vz pt px py pz dot3 norm2_3 add3 scale3 neg3 vect mk4 add4 zero4 neg4 mink mass2 mass boost_vector "
        "gamma_of gamma2_of boost_g boost rest_vector rmax get_p rsum rprod q_list wtmax_list wt_max ranges_aux sm0 mass_ranges "
@@ -144,6 +150,13 @@ def tol_w():
     return TOL_F32 if f32_defect() else 1e-8
 
 
+def gen_state(gen):
+    """the attributes of a PhaseSpaceGenerator the other methods read"""
+    return {"m0": float(gen.m0), "m_mass": [float(x) for x in gen.m_mass], "sum_mass": float(gen.sum_mass), "m_nt": int(gen.m_nt),
+            "mass_range": [[float(x) for x in r] for r in gen.mass_range], "n_mass_generator": len(gen.mass_generator),
+            "m_wtMax": float(gen.m_wtMax)}
+
+
 def output_checks(ctx, cs, cid, m0, mi, ps, k, meta, coq=True, tol=1e-9):
     """event k of the list of momenta ps (one array [N,4] per particle): on shell, sum = (m0,0,0,0)"""
     fails = []
@@ -191,7 +204,22 @@ def _generator_cases(ctx, rnd, cs, n, kind, gi, nev, quick):
 
     def bad(layer, what, **kw):
         fails.append(dict(layer=layer, what=what, input=dict(inp, **kw), case=gid))
-    gen = PhaseSpaceGenerator(m0, mi)
+    if gi % 2 == 1:
+        # R: a generator that had another decay before (public set_decay) is the generator of (m0, mi)
+        m0p, mip = gen_mass_set(rnd, rnd.choice([2, 3, 4, 5]), "generic")
+        gen = PhaseSpaceGenerator(m0p, mip)
+        gen.set_decay(m0, mi)
+        inp["reconfigured_from"] = {"m0": m0p, "mi": mip}
+        ctx.count("generator:reconfigured")
+        state = gen_state(gen)
+        cs.add("S.set_decay_state", gid + "_state", "(g_mass (set_decay_new (init_state %s %s) %s %s) = %s /\\ g_nt (set_decay_new (init_state %s %s) %s %s) = %d%%nat)" % (
+            Rq(m0p), Rl(mip), Rq(m0), Rl(mi), Rl(gen.m_mass), Rq(m0p), Rl(mip), Rq(m0), Rl(mi), int(gen.m_nt)),
+            {"function": "PhaseSpaceGenerator.set_decay", "input": inp, "impl": state}, tac="split; reflexivity")
+        if state != gen_state(PhaseSpaceGenerator(m0, mi)) or state["m_mass"] != [float(x) for x in mi] or state["m_nt"] != n:
+            bad("O.set_decay_state", "set_decay on an existing generator leaves a state different from a fresh generator: %r" % (state,))
+            return fails
+    else:
+        gen = PhaseSpaceGenerator(m0, mi)
     a = mi[::-1]
     a0, tl = a[0], a[1:]
     meta = {"function": "PhaseSpaceGenerator", "input": inp}
@@ -302,7 +330,23 @@ def count_cases(ctx, rnd, cs, quick):
             kind = ["generic", "massless", "threshold", "bigQ"][k % 4]
             k += 1
             m0, mi = gen_mass_set(rnd, n, kind)
-            gen = PhaseSpaceGenerator(m0, mi)
+            inp = {"m0": m0, "mi": mi, "N": N}
+            if k % 3 == 2:
+                m0p, mip = gen_mass_set(rnd, rnd.choice([2, 3, 4, 5]), "generic")
+                inp["reconfigured_from"] = {"m0": m0p, "mi": mip}
+                try:
+                    gen = PhaseSpaceGenerator(m0p, mip)
+                    gen.set_decay(m0, mi)
+                except Exception as e:
+                    bad("C.count", "set_decay on an existing generator raised %r" % (e,), inp)
+                    continue
+                ctx.count("count:reconfigured")
+                if gen_state(gen) != gen_state(PhaseSpaceGenerator(m0, mi)):
+                    # (not run further: a generator in a mixed state may never accept an event)
+                    bad("O.set_decay_state", "set_decay on an existing generator leaves a state different from a fresh generator: %r" % (gen_state(gen),), inp)
+                    continue
+            else:
+                gen = PhaseSpaceGenerator(m0, mi)
             acc = []
             of = gen.flatten_mass
 
@@ -311,7 +355,7 @@ def count_cases(ctx, rnd, cs, quick):
                 _acc.append(int(r[0].shape[0]))
                 return r
             gen.flatten_mass = wf
-            inp = {"m0": m0, "mi": mi, "N": N, "accepted_batches": acc}
+            inp = dict(inp, accepted_batches=acc)
             try:
                 ps = gen.generate(N)
                 if not all(np.all(np.isfinite(arr(p))) for p in ps):
@@ -400,6 +444,288 @@ def count_cases(ctx, rnd, cs, quick):
     return fails
 
 
+# ---------------------------------------------------------------------------------------------- K: cal_max_weight
+# fixed members of the scenario family: the shapes the property's quantifier names (many bodies with a large Q value,
+# masses in MeV, near threshold, massless daughters - two trailing ones make the lower ladder bound M_1 = 0), with
+# the tf seeds under which the independent tester's reproducers (/tmp/hunt_C10 finding_1/2) show the defects of the
+# code before the repair; the seeded random members follow
+CALMAX_FIXED = [
+    (10.58, [0.13957] * 6, (3,)),
+    (6000.0, [500.0, 100.0, 1000.0, 300.0, 2000.0, 700.0], (1,)),
+    (5000.0, [100.0, 1500.0, 300.0, 100.0, 1000.0], (3,)),
+    (1.00001, [0.5, 0.3, 0.1, 0.1], (4, 1)),
+    (1.0, [0.2, 0.0, 0.0], (4, 1)),
+    (5.28, [0.4937, 0.1396, 0.0, 0.0], (14,)),
+    (1.0, [0.0] * 5, (5,)),
+    (2.0, [0.5, 0.3], (1,)),
+]
+CALMAX_NESTED = [(1.0, ((0.3, (0.1, 0.1)), 0.2), [0.1, 0.1, 0.2]),
+                 (5.0, ((2.0, (0.5, 0.3)), (1.5, (0.2, (0.9, (0.1, 0.13))))), [0.5, 0.3, 0.2, 0.1, 0.13]),
+                 (3.0, (0.5, (1.2, (0.0, 0.0, 0.4)), 0.3), [0.5, 0.0, 0.0, 0.4, 0.3])]
+
+
+def calmax_scenarios(rnd, quick):
+    out = [(m0, list(mi), sd, "fixed") for m0, mi, seeds in CALMAX_FIXED for sd in seeds]
+    kinds = ["generic", "massless", "threshold", "bigQ", "massless2", "MeV"]
+    k = 0
+    for n in (3, 4, 5, 6):
+        for _ in range(2 if quick else 8):
+            kind = kinds[k % len(kinds)]
+            k += 1
+            if kind == "massless2":
+                m0, mi = gen_mass_set(rnd, n, "generic")
+                m0 -= mi[-1] + mi[-2]
+                mi[-1] = mi[-2] = 0.0
+            elif kind == "MeV":
+                m0, mi = gen_mass_set(rnd, n, rnd.choice(["generic", "bigQ"]))
+                m0, mi = m0 * 1000.0, [x * 1000.0 for x in mi]
+            else:
+                m0, mi = gen_mass_set(rnd, n, kind)
+            out.append((m0, mi, rnd.randrange(1, 10 ** 6), kind))
+    return out
+
+
+def run_cal_max(gen, seed):
+    """gen.cal_max_weight() under tf seed `seed`; records the scan (first batched get_weight call) and the result
+    object of scipy.optimize.minimize"""
+    import tensorflow as tf
+    import scipy.optimize as so
+    rec = {"scan": None, "ret": None, "n_weight_calls": 0}
+    orig_min, orig_gw = so.minimize, gen.get_weight
+
+    def wmin(*a, **k):
+        r = orig_min(*a, **k)
+        rec["ret"] = r
+        return r
+
+    def gw(ms, importances=True):
+        r = orig_gw(ms, importances=importances)
+        rec["n_weight_calls"] += 1
+        v = np.asarray(r)
+        if rec["scan"] is None and rec["ret"] is None and v.ndim == 1 and v.shape[0] > 1:
+            rec["scan"] = (ms, arr(v))
+        return r
+    so.minimize = wmin
+    gen.get_weight = gw
+    tf.random.set_seed(seed)
+    try:
+        ret = gen.cal_max_weight()
+    finally:
+        so.minimize = orig_min
+        del gen.get_weight
+    rec["returned"] = None if ret is None else float(ret)
+    return rec
+
+
+def weights_after(gen, seed, N=20000):
+    """(weights of N fresh uniform proposals, the proposals)"""
+    import tensorflow as tf
+    tf.random.set_seed(seed)
+    mass = gen.generate_mass(N)
+    return arr(gen.get_weight(mass)), [arr(x) for x in mass]
+
+
+def calmax_cases(ctx, rnd, cs, quick):
+    import tensorflow as tf
+    from tf_pwa.phasespace import ChainGenerator, PhaseSpaceGenerator
+    fails = []
+
+    def bad(layer, what, inp):
+        fails.append(dict(layer=layer, what=what, input=inp, case="calmax"))
+    for si, (m0, mi, seed, kind) in enumerate(calmax_scenarios(rnd, quick)):
+        n = len(mi)
+        inp = {"m0": m0, "mi": mi, "tf_seed": seed, "kind": kind, "call": "PhaseSpaceGenerator(m0, mi).cal_max_weight()"}
+        cid = "K%d" % si
+        ctx.count("cal_max:n=%d:%s" % (n, kind)); ctx.evaluations += 1
+        ctx.distinct.add(("cal_max", m0, tuple(mi), seed))
+        gen = PhaseSpaceGenerator(m0, mi)
+        wt0 = float(gen.m_wtMax)
+        try:
+            rec = run_cal_max(gen, seed)
+        except Exception as e:
+            bad("C.cal_max", "cal_max_weight raised %r" % (e,), inp)
+            continue
+        new = float(gen.m_wtMax)
+        inp = dict(inp, analytic_wtMax=wt0, wtMax_after=new)
+        meta = {"function": "PhaseSpaceGenerator.cal_max_weight", "input": inp}
+        if n == 2:
+            if new != wt0:
+                bad("O.cal_max_two_body", "cal_max_weight changed the exact two-body bound %r -> %r" % (wt0, new), inp)
+            continue
+        if not (np.isfinite(new) and new > 0):
+            bad("O.cal_max_finite", "m_wtMax = %r after cal_max_weight (weights NaN / zero: generate(N) never returns)" % new, inp)
+            continue
+        if new > wt0 * 1.001 * (1 + 1e-12):
+            bad("O.cal_max_range", "m_wtMax %r after cal_max_weight exceeds 1.001 x the analytic bound %r" % (new, wt0), inp)
+        if rec["returned"] != new:
+            bad("O.cal_max_return", "cal_max_weight returned %r, stored %r" % (rec["returned"], new), inp)
+        # property: acceptance weights of fresh proposals in [0, 1]
+        w, mass = weights_after(gen, seed + 7919)
+        k = int(np.argmax(np.where(np.isfinite(w), w, np.inf)))
+        if not np.all(np.isfinite(w)) or w[k] > 1 or np.min(w) < 0:
+            bad("O.weight_le_one", "after cal_max_weight the acceptance weight of a proposal is %r (fraction of 20000 proposals above one: %.4f)" % (float(w[k]), float(np.mean(w > 1))),
+                dict(inp, ladder=[float(x[k]) for x in mass], weight=float(w[k])))
+        # K tie: the stored bound is the model's function of the scan and of the optimiser's result
+        if rec["scan"] is None or rec["ret"] is None:
+            bad("K.cal_max_trace", "cal_max_weight made %s scan of proposals / %s optimiser call: not the procedure modelled (cal_max_new)" % (
+                "no" if rec["scan"] is None else "a", "no" if rec["ret"] is None else "an"), inp)
+        else:
+            ws = rec["scan"][1]
+            ws = np.where(np.isfinite(ws), ws, 0.0)
+            kk = int(np.argmax(ws))
+            # max of the scan = max of any sub-list containing its largest element: 4 entries are written out
+            # (rmax duplicates its argument: the goal grows as 2^length)
+            sub = [float(x) for x in ws[:: max(1, len(ws) // 3)][:3]]
+            sub.insert(si % 4, float(ws[kk]))
+            r = float(-rec["ret"].fun)
+            cs.add("K.cal_max", cid + "_new", s_real("cal_max_new %s %s %s" % (Rq(wt0), Rl(sub), Rq(r)), new, rtol=1e-12),
+                   dict(meta, scan_max=float(ws[kk]), optimiser_ratio=r, impl=new), tac="cbv [cal_max_new rmaxl rmax]; interval with (i_prec 90)")
+            cs.add("O.cal_max_scanned", cid + "_scan", "(reweight %s %s %s <= 1000 / 1001 + 1 / 1000000000000)" % (Rq(wt0), Rq(new), Rq(float(ws[kk]))),
+                   dict(meta, scan_max=float(ws[kk]), impl=new), tac="cbv [reweight]; interval with (i_prec 90)")
+            # the optimiser's own end point
+            xo = np.array([float(lo + u * (hi - lo)) for u, (lo, hi) in zip(np.atleast_1d(rec["ret"].x), gen.mass_range)])
+            wo = float(arr(gen.get_weight([tf.constant([x], tf.float64) for x in xo]))[0])
+            if np.isfinite(wo) and wo > 1000 / 1001 * (1 + 1e-9):
+                bad("O.weight_le_one", "weight %r at the optimiser's end point after cal_max_weight" % wo, dict(inp, ladder=[float(x) for x in xo], weight=wo))
+        # generate(N) after cal_max_weight: exact count, physical events (only when proposals can be accepted at all)
+        if np.all(np.isfinite(w)) and float(np.mean(np.clip(w, 0, 1))) > 1e-4:
+            N = 100
+            ps = gen.generate(N)
+            if len(ps) != n or any(tuple(arr(p_).shape) != (N, 4) for p_ in ps):
+                bad("C.count", "generate(%d) after cal_max_weight returned shapes %r" % (N, [tuple(arr(p_).shape) for p_ in ps]), inp)
+            else:
+                for x in output_checks(ctx, cs, cid + "_ev", m0, mi, ps, 0, meta, coq=False, tol=tol_sum()):
+                    bad("O.event", x, inp)
+    # nested chains: ChainGenerator.cal_max_weight visits every sub-generator (two-body ones included)
+    for ni, (m0, st, leaves) in enumerate(CALMAX_NESTED):
+        inp = {"m0": m0, "struct": repr(st), "call": "ChainGenerator(m0, struct).cal_max_weight(); generate(100)"}
+        ctx.count("cal_max:nested"); ctx.evaluations += 1
+        try:
+            g = ChainGenerator(m0, st)
+            tf.random.set_seed(100 + ni)
+            g.cal_max_weight()
+            wm = [float(x.m_wtMax) for x in g.gen]
+            if not all(np.isfinite(x) and x > 0 for x in wm):
+                bad("O.cal_max_finite", "m_wtMax of the sub-generators after ChainGenerator.cal_max_weight: %r" % (wm,), inp)
+                continue
+            for x in g.gen:
+                if x.m_nt > 2:
+                    w, mass = weights_after(x, 200 + ni)
+                    if not np.all(np.isfinite(w)) or np.max(w) > 1 or np.min(w) < 0:
+                        k = int(np.argmax(w))
+                        bad("O.weight_le_one", "after ChainGenerator.cal_max_weight a sub-generator has a proposal of weight %r" % float(w[k]),
+                            dict(inp, sub_generator={"m0": x.m0, "mi": list(x.m_mass)}, ladder=[float(y[k]) for y in mass]))
+            pi = g.generate(100)
+        except Exception as e:
+            bad("C.cal_max", "ChainGenerator.cal_max_weight / generate raised %r" % (e,), inp)
+            continue
+        flat = []
+
+        def fl(t):
+            if isinstance(t, (list, tuple)):
+                for x in t:
+                    fl(x)
+            else:
+                flat.append(t)
+        fl(pi)
+        if len(flat) != len(leaves) or any(tuple(arr(p_).shape) != (100, 4) for p_ in flat):
+            bad("C.count", "generate after cal_max_weight returned shapes %r" % [tuple(arr(p_).shape) for p_ in flat], inp)
+            continue
+        for x in output_checks(ctx, cs, "Knest%d" % ni, m0, leaves, flat, 0, {"function": "ChainGenerator.cal_max_weight", "input": inp}, coq=False, tol=tol_sum()):
+            bad("O.event", x, inp)
+    return fails
+
+
+# ---------------------------------------------------------------------------------------------- N: nested nodes chosen by the config
+def _minv2(*ps):
+    s = sum(arr(p) for p in ps)
+    return s[:, 0] ** 2 - np.sum(s[:, 1:] ** 2, axis=1)
+
+
+def config_nest_cases(ctx, rnd, cs, quick):
+    """A -> X D, X -> B C with several particles X sharing the (B, C) node: constant ("one") particles with a mass and
+    resonances in all orders.  The node is generated at a fixed mass iff all X are constant with the same mass (model
+    nest_node); then m(BC) is that mass exactly, otherwise the sample is LIPS-flat."""
+    import tensorflow as tf
+    from tf_pwa.config_loader import ConfigLoader
+    from tf_pwa.config_loader.sample import build_phsp_chain
+    from tf_pwa.phasespace import PhaseSpaceGenerator
+    fails = []
+
+    def bad(layer, what, inp):
+        fails.append(dict(layer=layer, what=what, input=inp, case="config"))
+    N = 20000
+    shapes = ["one,bw", "bw,one", "one,one_same", "one,one_other", "bw,bw", "one", "one,bw,one_same", "one,one_same,one_same"]
+    if not quick:
+        shapes = shapes * 3
+    for ci, shape in enumerate(shapes):
+        mB, mC, mD = [round(rnd.uniform(0.1, 0.6), 3) for _ in range(3)]
+        m0 = round(mB + mC + mD + rnd.uniform(1.0, 4.0), 3)
+        m_fix = round(mB + mC + rnd.uniform(0.2, 0.8) * (m0 - mB - mC - mD), 3)
+        parts, particle, chains = [], {}, []
+        for j, kind in enumerate(shape.split(",")):
+            name = "X%d" % j
+            if kind == "bw":
+                mass = round(rnd.uniform(mB + mC, m0 - mD), 3)
+                particle[name] = {"J": 0, "P": 1, "mass": mass, "width": 0.1}
+            else:
+                mass = m_fix if kind in ("one", "one_same") else round(m_fix + 0.05 * (m0 - mD - m_fix) + 0.001, 3)
+                particle[name] = {"J": 0, "P": 1, "mass": mass, "model": "one"}
+            parts.append((kind != "bw", mass))
+            chains.append([name, "D"])
+        cfg = {"data": {"dat_order": ["B", "C", "D"]},
+               "decay": dict({"A": chains}, **{"X%d" % j: ["B", "C"] for j in range(len(parts))}),
+               "particle": dict({"$top": {"A": {"J": 0, "P": 1, "mass": m0}},
+                                 "$finals": {k_: {"J": 0, "P": 1, "mass": m_} for k_, m_ in (("B", mB), ("C", mC), ("D", mD))}}, **particle)}
+        inp = {"config": cfg, "shape": shape, "call": "ConfigLoader(config).generate_phsp_p(%d)" % N}
+        ctx.count("config_nest:" + shape); ctx.evaluations += 1
+        ctx.distinct.add(("config_nest", m0, mB, mC, mD, tuple(parts)))
+        try:
+            config = ConfigLoader(cfg)
+            m0_i, mi_i, idx = build_phsp_chain(config.get_decay())
+            nested = [x for x in mi_i if isinstance(x, (tuple, list))]
+            tf.random.set_seed(300 + ci)
+            p = {str(k_): arr(v) for k_, v in config.generate_phsp_p(N, cal_max=(ci % 2 == 1)).items()}
+        except Exception as e:
+            bad("C.config", "build_phsp_chain / generate_phsp_p raised %r" % (e,), inp)
+            continue
+        impl = float(nested[0][0]) if nested else None
+        model = parts[0][1] if all(b for b, _ in parts) and len(set(m for _, m in parts)) == 1 else None
+        meta = {"function": "build_phsp_chain", "input": inp, "impl": impl}
+        plist = "[" + "; ".join("(%s, %s)" % ("true" if b else "false", Rq(m)) for b, m in parts) + "]"
+        cs.add("N.nest_node", "N%d" % ci, "(nest_node %s = %s)" % (plist, "None" if impl is None else "Some %s" % Rq(impl)), meta,
+               tac="cbv [nest_node forallb fst snd same_mass andb]; repeat (destruct (Req_EM_T _ _); try lra); reflexivity")
+        if impl != model:
+            bad("O.config_nested_node", "node (B, C) generated with %s, particles there: %r" % ("the fixed mass %r" % impl if impl is not None else "a free mass", parts), inp)
+        ps = [p["B"], p["C"], p["D"]]
+        if any(x.shape != (N, 4) for x in ps):
+            bad("C.count", "generate_phsp_p returned shapes %r" % [x.shape for x in ps], inp)
+            continue
+        for ev in (0, N - 1):
+            for x in output_checks(ctx, cs, "N%d_%d" % (ci, ev), m0, [mB, mC, mD], ps, ev, {"function": "ConfigLoader.generate_phsp_p", "input": inp}, coq=(ev == 0), tol=tol_sum()):
+                bad("O.event", x, inp)
+        s_bc = _minv2(ps[0], ps[1])
+        if model is not None:
+            dev = float(np.max(np.abs(np.sqrt(np.abs(s_bc)) - model)))
+            if dev > max(1e-9, tol_sum()) * m0:
+                bad("O.nested_mass", "fixed intermediate mass: max |m(BC) - %r| = %r" % (model, dev), inp)
+        else:
+            # flat Dalitz plot: m^2(BC) spectrum against an independent PhaseSpaceGenerator sample (two-sample chi^2,
+            # false alarm ~1e-9 at z > 6)
+            tf.random.set_seed(400 + ci)
+            ref = [arr(x) for x in PhaseSpaceGenerator(m0, [mB, mC, mD]).generate(N)]
+            edges = np.linspace((mB + mC) ** 2, (m0 - mD) ** 2, 13)
+            h1, _ = np.histogram(s_bc, edges)
+            h2, _ = np.histogram(_minv2(ref[0], ref[1]), edges)
+            msk = (h1 + h2) > 20
+            chi2 = float(np.sum((h1[msk] - h2[msk]) ** 2 / (h1[msk] + h2[msk]))); dof = int(np.sum(msk))
+            z = ((chi2 / dof) ** (1 / 3) - (1 - 2 / (9 * dof))) / math.sqrt(2 / (9 * dof))
+            if int(np.sum(h1)) != N or z > 6:
+                bad("O.config_flat", "generate_phsp_p is not flat in m^2(BC): chi2 = %.1f / %d against PhaseSpaceGenerator (std of m(BC) %.3g, reference %.3g)" % (
+                    chi2, dof, float(np.std(np.sqrt(np.abs(s_bc)))), float(np.std(np.sqrt(np.abs(_minv2(ref[0], ref[1])))))), inp)
+    return fails
+
+
 def getp_cases(ctx, rnd, cs, n):
     import tensorflow as tf
     from tf_pwa.phasespace import get_p
@@ -452,6 +778,20 @@ def search(ctx, fails):
                 wc = float(arr(gen.get_weight(lad))[0])
                 if wc > 1 + 1e-12 or wc < 0:
                     return {"property": "acceptance weight in [0,1]", "m0": m0, "mi": mi, "ladder": [float(arr(x)[0]) for x in lad], "weight": wc}
+        if it % 4 == 0:
+            # the same after cal_max_weight (on a generator of its own)
+            g2 = PhaseSpaceGenerator(m0, mi)
+            sd = rnd.randrange(1, 10 ** 6)
+            tf.random.set_seed(sd)
+            try:
+                g2.cal_max_weight()
+            except Exception as e:
+                return {"property": "cal_max_weight keeps the acceptance weight in [0,1]", "m0": m0, "mi": mi, "tf_seed": sd, "error": repr(e)[:500]}
+            w2 = arr(g2.get_weight(mass))
+            k2 = int(np.argmax(np.where(np.isfinite(w2), w2, np.inf)))
+            if not np.all(np.isfinite(w2)) or w2[k2] > 1 or np.min(w2) < 0:
+                return {"property": "acceptance weight in [0,1] after cal_max_weight", "m0": m0, "mi": mi, "tf_seed": sd, "call": "PhaseSpaceGenerator(m0, mi).cal_max_weight()",
+                        "ladder": [float(arr(x)[k2]) for x in mass], "weight": float(w2[k2]), "wtMax_after": float(g2.m_wtMax)}
         Nq = rnd.choice([1, 2, 7, 100])
         try:
             ps = gen.generate(Nq)
@@ -496,7 +836,10 @@ def run(ctx):
     rnd = random.Random(ctx.seed * 1000003 + 10)
     quick = ctx.tier == "quick"
     ctx.rule = ("seeded mass sets n=2..6 (generic, massless daughters, Q from 1e-3, Q up to 10) x events; uniform numbers of the implementation "
-                "recorded; counts for N in {1,2,7,100,1000}; nested generate_phsp, gen_mc, ConfigLoader.generate_phsp_p.  distinct = distinct (m0, mi) / inputs")
+                "recorded; every second generator re-configured through set_decay; counts for N in {1,2,7,100,1000}; nested generate_phsp, gen_mc, "
+                "ConfigLoader.generate_phsp_p; cal_max_weight on fixed (6 pions at 10.58, MeV masses, Q = 1e-5, two trailing massless daughters, 2 bodies) "
+                "and seeded mass sets x tf seeds, ChainGenerator.cal_max_weight on nested chains; configs with constant / resonant particles sharing a node "
+                "in all orders.  distinct = distinct (m0, mi) / inputs")
     common.theorem_stage(ctx)
     cs = Cases(ctx)
     getp_cases(ctx, rnd, cs, 12 if quick else 120)
@@ -509,6 +852,8 @@ def run(ctx):
             gi += 1
     ctx.log("generator goals", len(cs.items), "python failures", len(pyfails))
     pyfails += count_cases(ctx, rnd, cs, quick)
+    pyfails += calmax_cases(ctx, random.Random(ctx.seed * 1000003 + 1011), cs, quick)
+    pyfails += config_nest_cases(ctx, random.Random(ctx.seed * 1000003 + 1012), cs, quick)
     ctx.log("all goals", len(cs.items), "python failures", len(pyfails))
     try:  # measured size of the float32 observation (not a pass/fail criterion here; reported as a finding)
         from tf_pwa.phasespace import PhaseSpaceGenerator
@@ -534,7 +879,9 @@ def run(ctx):
     return common.finish(ctx, search=search, technique=TECHNIQUE, extra_assumptions=[
         "tf.random.uniform is an oracle: its outputs are recorded and fed to the model; uniformity/independence is not proved (thorough: chi^2 flatness support test)",
         "real-number model; tolerances: weights rtol 1e-8, momenta atol 1e-8*M (sqrt conditioning at threshold), on-shell |m^2 residual| <= 1e-9 M^2, momentum sum 1e-9 M",
-        "the refill loop of generate() terminates only if batches keep accepting events (oracle); cal_max_weight (scipy) and custom mass_generator objects are not covered"])
+        "the refill loop of generate() terminates only if batches keep accepting events (oracle); custom mass_generator objects are not covered",
+        "cal_max_weight: scipy's optimiser is an oracle (its result is recorded and fed to the model cal_max_new); that no ladder at all exceeds weight one "
+        "afterwards holds if the optimiser finds the global maximum (C10_cal_max_global_given_oracle) and is tested on 20000 fresh proposals per scenario"])
 
 
 def replay(rep):
